@@ -68,6 +68,7 @@ var recovBackoffs = []backoffCfg{
 	{20 * time.Millisecond, 2, 1, 100 * time.Millisecond},
 	{15 * time.Millisecond, 3, 2, 60 * time.Millisecond},
 	{40 * time.Millisecond, 1, 1, 200 * time.Millisecond},
+	{400 * time.Millisecond, 2, 1, 50 * time.Millisecond}, // initial delay above T5: every sleep, the first included, is capped at T5
 }
 
 const (
